@@ -111,6 +111,11 @@ class Crash(BaseException):
     pass
 
 
+class Looping(BaseException):
+    """the command issued more library-boundary operations than any terminating run could"""
+    pass
+
+
 class Shim:
     MUT_NAMES = ('rename', 'replace', 'unlink', 'remove', 'rmdir', 'mkdir', 'symlink', 'utime', 'chmod', 'link',
                  'truncate', 'chown', 'lchown', 'setxattr', 'sendfile', 'copy_file_range', 'write')
@@ -169,6 +174,8 @@ class Shim:
         """record + possibly fault a library-boundary op issued by a trashcli frame"""
         self.nlib += 1
         k = self.nlib
+        if k > self.step.get('maxlib', 20000):
+            raise Looping()
         fault = self.plan.get('fault')      # [k, errno] : the k-th library-boundary op fails
         faults = self.plan.get('faults')    # {opname: errno} persistent fault on every op of that name, optional path filter
         rec = [name, args, None]
@@ -187,7 +194,7 @@ class Shim:
         except OSError as e:
             rec[2] = ['err', 'ShutilError' if isinstance(e, shutil.Error) else 'OSError', e.errno]
             raise
-        except Crash:
+        except (Crash, Looping):
             rec[2] = ['crash']
             raise
         except BaseException as e:
@@ -521,6 +528,7 @@ def _child(root, scn, step, resfile, outf, errf):
     shim.install()
     code, exc, tb = 0, None, None
     crashed = False
+    looping = False
     try:
         rc = mains[cmd]()
         code = 0 if rc is None else (rc if isinstance(rc, int) else 1)
@@ -535,6 +543,10 @@ def _child(root, scn, step, resfile, outf, errf):
     except Crash:
         crashed = True
         code = 137
+    except Looping:
+        looping = True
+        code = None
+        shim.trace = shim.trace[:200]
     except BaseException as e:     # what the interpreter would do: traceback, exit status 1
         exc = type(e).__name__
         tb = traceback.format_exc()
@@ -549,7 +561,7 @@ def _child(root, scn, step, resfile, outf, errf):
     except Exception:
         pass
     res = {'exit': code, 'exc': exc, 'tb': tb, 'trace': shim.trace, 'nmut': shim.nmut, 'muts': shim.muts,
-           'nlib': shim.nlib, 'rand_used': shim.rand_used, 'crashed': crashed}
+           'nlib': shim.nlib, 'rand_used': shim.rand_used, 'crashed': crashed, 'looping': looping}
     shim.orig['bopen'](resfile, 'w').write(json.dumps(res, default=_jsonable))
     os._exit(0)
 
@@ -562,8 +574,10 @@ def _jsonable(o):
     return repr(o)
 
 
-def run_step(root, scn, step, timeout=20):
+def run_step(root, scn, step, timeout=None):
     """fork a child that chroots into root and runs one command; returns the observation dict"""
+    if timeout is None:
+        timeout = step.get('timeout', 20)
     ctl = tempfile.mkdtemp(prefix='tvctl', dir=BASE)
     os.makedirs(os.path.join(root, '.ctl'), exist_ok=True) if False else None
     resfile = os.path.join(ctl, 'res.json')
@@ -604,7 +618,7 @@ def run_step(root, scn, step, timeout=20):
     try:
         with open(resfile) as f:
             txt = f.read()
-        obs.update(json.loads(txt) if txt else {'exit': None, 'harness_error': 'no result (child status %r)' % status})
+        obs.update(json.loads(txt) if txt else {'exit': None, 'exc': None, 'trace': [], 'nmut': 0, 'muts': [], 'harness_error': 'no result (child status %r)' % status})
     except Exception as e:
         obs.update({'exit': None, 'harness_error': 'unreadable result: %r' % e})
     with open(outf, 'rb') as f:
